@@ -90,6 +90,26 @@ Theorem C03_end_to_end_through_relays_back : forall (sched : Type) (fair : sched
 Proof. exact relay_stream_relay_back. Qed.
 Print Assumptions C03_end_to_end_through_relays_back.
 
+(* a connection ended at once by the writing side (CloseConnection) while written bytes are still
+   undelivered: whatever the reader was given is a prefix of what was written, and end-of-stream
+   is never early - a reader told end-of-stream has every byte, written by a writer that closed.
+   [abort_ok] is the check evaluated on the real reads of such streams (CAbort cases). *)
+Theorem C03_abrupt_end_prefix : forall written read, abort_ok written read = true ->
+  exists rest, writes_of written = fst (stream_of read) ++ rest.
+Proof. exact abort_ok_prefix. Qed.
+Print Assumptions C03_abrupt_end_prefix.
+
+Theorem C03_abrupt_end_no_early_eof : forall written read, abort_ok written read = true ->
+  snd (stream_of read) = REof ->
+  fst (stream_of read) = writes_of written /\ closes_of written <> 0%nat.
+Proof. exact abort_ok_eof_complete. Qed.
+Print Assumptions C03_abrupt_end_no_early_eof.
+
+Theorem C03_abrupt_end_allows_exact : forall written read,
+  stream_of read = (writes_of written, eof_if_closed written) -> abort_ok written read = true.
+Proof. exact abort_ok_of_exact. Qed.
+Print Assumptions C03_abrupt_end_allows_exact.
+
 (* the hypothesis is satisfiable, and the relay theorems are about something *)
 Example C03_hypothesis_satisfiable : quic_ok (fun _ : unit => true) perfect_stream.
 Proof. exact perfect_stream_ok. Qed.
@@ -101,3 +121,12 @@ Example C03_nonvacuous :
   bridge_half [mkrd [1] ROk; mkrd [] RErr] [] = [CWrite [1]; CClose] /\
   bridge_half [mkrd [1] ROk] [] = [CWrite [1]].
 Proof. exact bridge_examples. Qed.
+Example C03_abrupt_end_nonvacuous :
+  abort_ok [CWrite [1; 2; 3]; CClose] [mkrd [1] ROk; mkrd [] RErr] = true /\
+  abort_ok [CWrite [1; 2; 3]; CClose] [mkrd [] RErr] = true /\
+  abort_ok [CWrite [1; 2; 3]; CClose] [mkrd [1; 2] ROk; mkrd [3] REof] = true /\
+  abort_ok [CWrite [1; 2; 3]; CClose] [mkrd [1] ROk; mkrd [] REof] = false /\
+  abort_ok [CWrite [1; 2; 3]; CClose] [mkrd [] REof] = false /\
+  abort_ok [CWrite [1; 2; 3]] [mkrd [1; 2; 3] ROk; mkrd [] REof] = false /\
+  abort_ok [CWrite [1; 2; 3]; CClose] [mkrd [1; 3] ROk; mkrd [] RErr] = false.
+Proof. exact abort_examples. Qed.
